@@ -145,8 +145,8 @@ class LoaderGroup(Generic[_K, _L]):
 
         all_tasks: list[list[da.Array]] = []
         for key, loader in self:
-            output_shape = loader._get_output_shape(output_shape)
-            dask_array = loader.construct_dask(output_shape=output_shape, backend=xp)
+            _output_shape = loader._get_output_shape(output_shape)
+            dask_array = loader.construct_dask(output_shape=_output_shape, backend=xp)
             nmole = dask_array.shape[0]
             tasks: list[da.Array] = []
             for _ in range(n_set):
